@@ -1130,6 +1130,11 @@ class SSHProcess(SSHStreamSession, Generic[AnyStr]):
         if self._eof_received:
             writer.write_eof()
 
+        if self._connection_lost and isinstance(writer, _PipeWriter):
+            # The channel closed before this pipe was attached, so close
+            # it here to have the process wait for the pipe to drain
+            writer.close()
+
         self._maybe_resume_reading()
 
     def pause_feeding(self, datatype: DataType) -> None:
